@@ -222,7 +222,9 @@ class _ConfusionMatrix:
     if average is None or average in ('micro', 'binary'):
       return result
     elif average == 'macro':
-      return np.mean(result, axis=0)
+      # The class dimension is the last one: (classes,) or, for a top-k
+      # confusion matrix, (k, classes).
+      return np.mean(result, axis=-1)
     else:
       raise NotImplementedError(f'"{average}" average is not supported.')
 
